@@ -5,7 +5,10 @@ D: AllocateDesign.tla - the greedy scan as coded, all layouts at small constants
 T: one trace per call of rig's allocate(): a grant event per (vertex, resource), judged by AllocateTrace.tla.
 """
 import itertools
+import os
 import random
+import signal
+import threading
 
 from rig.place_and_route import Machine, Cores, SDRAM, SRAM
 from rig.place_and_route.allocate.greedy import allocate
@@ -27,6 +30,32 @@ def _hashable(v):
         hash(v)
         return True
     except TypeError:
+        return False
+
+
+class AllocateDidNotReturn(Exception):
+    """allocate() was still running after CALL_LIMIT seconds (the unchanged tree needs milliseconds, a fraction of a
+    second for the populous problems): "always terminates" is observed per call and ends as a `raise` event the
+    specification rejects (OnlyDocumentedError), instead of the check standing still until its wall limit"""
+
+
+CALL_LIMIT = float(os.environ.get("VERIF_C05_CALL_LIMIT", "30"))
+
+
+class call_limit(object):
+    def __enter__(self):
+        self.on = hasattr(signal, "setitimer") and threading.current_thread() is threading.main_thread()
+        if self.on:
+            def fire(signum, frame):
+                raise AllocateDidNotReturn("no result after %g s" % CALL_LIMIT)
+            self.old = signal.signal(signal.SIGALRM, fire)
+            signal.setitimer(signal.ITIMER_REAL, CALL_LIMIT)
+        return self
+
+    def __exit__(self, *exc):
+        if self.on:
+            signal.setitimer(signal.ITIMER_REAL, 0)
+            signal.signal(signal.SIGALRM, self.old)
         return False
 
 
@@ -73,7 +102,8 @@ def make_trace(vertices_resources, machine, constraints, placements, label="", r
             reqs.append([vidx[v], xy[0], xy[1], rname(r), size])
     evs = []
     try:
-        alloc = allocate(vertices_resources, list(nets), machine, constraints, placements)
+        with call_limit():
+            alloc = allocate(vertices_resources, list(nets), machine, constraints, placements)
     except Exception as ex:      # judged by the spec: only InsufficientResourceError is permitted
         evs.append(["raise", type(ex).__name__])
     else:
